@@ -5,5 +5,7 @@ CONSTANTS
   DevArr = TRUE
   DevStale = FALSE
   DevEmpty = FALSE
+  Disturbs = FALSE
+  DevRows = FALSE
 INVARIANTS LengthInv StepOKModKnown
 CHECK_DEADLOCK FALSE
